@@ -171,7 +171,7 @@ class C16(Check):
     def recordings(self, tier, seed, bins, work):
         scr = os.path.join(work, "scratchfiles")
         os.makedirs(scr, exist_ok=True)
-        return [Recording("rec_readers_tsan", ["--scratch", scr], "readers (TSan)", env={"TSAN_OPTIONS": "halt_on_error=1:abort_on_error=1"}, timeout=1200)]
+        return [Recording("rec_readers_tsan", ["--scratch", scr], "readers (TSan)", env={"TSAN_OPTIONS": "halt_on_error=1:abort_on_error=0:exitcode=66"}, timeout=1200)]
 
 
 ASAN = ["-g", "-fsanitize=address", "-fno-omit-frame-pointer"]
